@@ -186,8 +186,16 @@ class ClauseRunner(object):
                 return
             except BaseException as e:  # harness / oracle bug: never a violation
                 if self.last_fail is not None and isinstance(e, hypothesis.errors.Flaky):
+                    # the predicate failed for this case but not when the same case was executed again in this process:
+                    # the library's answer depends on the calls made before (the oracles are pure functions of the case)
                     case, f = self.last_fail
-                    self.errors.append("flaky failure in %s: %s" % (self.clause.name, f))
+                    sub = f.sub + ":depends_on_earlier_calls"
+                    if sub not in self.excluded:
+                        self.failures.append({"bucket": sub, "case": case, "msg": f.msg + "  [observed once; the same case passed when repeated in the same process, "
+                                              "so the result depends on earlier calls - the replay file alone may not reproduce it]", "details": f.details})
+                    self.excluded.add(sub)
+                    self.excluded.add(f.sub)
+                    continue
                 else:
                     self.errors.append("harness error in %s: %s" % (self.clause.name, "".join(traceback.format_exception(type(e), e, e.__traceback__))[-1500:]))
                 return
